@@ -248,6 +248,51 @@ OBLIGATIONS.append(Ob("monotonic_spacing_mirror_convex", _monotonic_mirror, tier
                       bounds="all parameters symbolic; convex case only (the concave case depends on brentq roots)", max_paths=20))
 
 
+def ob_cap_bp_reversal(env):
+    """cap_Bp_ylow_xpoint: reversing the sign of psi (Bp -> -Bp everywhere) only changes the sign of the capped Bpxy.ylow, not its magnitude"""
+    import hypnotoad.core.mesh as meshm
+    from harness.common import stub_region, mk_mla, sym_numpy as _sn, mla_mod, mesh_mod
+    sym = env.mode == "sym"
+    nx, ny = 2, 2
+    corner = env.choose(4)        # which of the four X-point markers is set
+    env.tag("xpoint_marker=%d" % corner)
+    mags = {}
+    with _sn(env, mla_mod, mesh_mod):
+        outs = []
+        for sgn in (1.0, -1.0):
+            regs = []
+            for k in range(3):            # the region, its lower and its upper neighbour
+                r = stub_region(nx, ny, True)
+                r.Bpxy = meshm.MultiLocationArray(nx, ny)
+                for loc in ("centre", "ylow"):
+                    arr = getattr(r.Bpxy, loc)
+                    for idx in numpy.ndindex(arr.shape):
+                        key = (k, loc) + idx
+                        if key not in mags:
+                            mags[key] = env.real("absBp_%d_%s_%d_%d" % key, lo=0.01, hi=9)
+                        arr[idx] = sgn * mags[key]
+                regs.append(r)
+            me, lower, upper = regs
+            me.getNeighbour = lambda face, lower=lower, upper=upper: {"lower": lower, "upper": upper}[face]
+            X = "X"
+            me.equilibriumRegion = types.SimpleNamespace(xPointsAtStart=[X if corner == 0 else None, X if corner == 1 else None, None],
+                                                        xPointsAtEnd=[X if corner == 2 else None, X if corner == 3 else None, None])
+            me.radialIndex = 0
+            me.bpsign = sgn      # set by geometry1 before the cap is applied: the sign of Bp
+            me.capBpYlowXpoint()
+            outs.append(me.Bpxy.ylow.copy())
+    env.witness("capped_both_signs")
+    a, b = outs
+    for idx in numpy.ndindex(a.shape):
+        env.claim_eq("capped_Bp_ylow_only_changes_sign_under_psi_reversal", b[idx], -a[idx])
+
+
+OBLIGATIONS.append(Ob("cap_Bp_ylow_xpoint_under_psi_reversal", ob_cap_bp_reversal, tier="quick", family="field reversal",
+                      encodes=["hypnotoad.core.mesh:MeshRegion.capBpYlowXpoint"],
+                      desc="the optional cap of Bpxy.ylow next to an X-point acts on the magnitude: with Bp -> -Bp the capped values are exactly negated",
+                      bounds="nx=2, ny=2, symbolic magnitudes, each of the four X-point markers in turn", max_paths=400))
+
+
 def _spacing_wiring(env):
     import harness.c10 as m   # resolved at call time
     return m.ob_spacing_wiring(env)
